@@ -33,7 +33,7 @@ def r_body(p):
             out += r_proposal(x)
         return out
     if isinstance(p, M.PayloadKE):
-        return ['ke', str(p.dh_group), hx(p.ke_data)]
+        return ['ke', str(int(p.dh_group)), hx(p.ke_data)]
     if isinstance(p, M.PayloadID):
         return ['id', str(int(p.id_type)), hx(p.id_data)]
     if isinstance(p, M.PayloadAUTH):
